@@ -19,7 +19,10 @@ import (
 
 // helpersOf: the private helpers of fn (memoised). A helper is in the same package, has a body, is not recursive with
 // the region, and every call-graph caller of it lies in the region.
-func (c *Ctx) helpersOf(fn *ssa.Function) map[*ssa.Function]bool {
+func (c *Ctx) helpersOf(fn *ssa.Function) map[*ssa.Function]bool { return c.P.helpersOf(fn) }
+
+func (P *Prog) helpersOf(fn *ssa.Function) map[*ssa.Function]bool {
+	c := &Ctx{P: P}
 	if c.P.helperMemo == nil {
 		c.P.helperMemo = map[*ssa.Function]map[*ssa.Function]bool{}
 	}
@@ -76,6 +79,7 @@ func (P *Prog) onlyCalledFrom(g *ssa.Function, region map[*ssa.Function]bool) bo
 	if P.staticSites == nil {
 		P.staticSites = map[*ssa.Function][]ssa.CallInstruction{}
 		P.valueUse = map[*ssa.Function]bool{}
+		P.valueUsers = map[*ssa.Function]map[*ssa.Function]bool{}
 		for f := range P.allFuncs {
 			if f.Blocks == nil {
 				continue
@@ -96,6 +100,10 @@ func (P *Prog) onlyCalledFrom(g *ssa.Function, region map[*ssa.Function]bool) bo
 							continue
 						}
 						P.valueUse[fv] = true
+						if P.valueUsers[fv] == nil {
+							P.valueUsers[fv] = map[*ssa.Function]bool{}
+						}
+						P.valueUsers[fv][f] = true
 					}
 				}
 			})
@@ -221,6 +229,9 @@ func (c *Ctx) goParent(fn *ssa.Function) *ssa.Function {
 	if fn.Parent() != nil {
 		return nil
 	}
+	if p := c.methodValueParent(fn); p != nil {
+		return p
+	}
 	n := c.P.cg.Nodes[fn]
 	if n == nil || len(n.In) == 0 {
 		return nil
@@ -266,4 +277,112 @@ func (c *Ctx) callsIn2(fn, g *ssa.Function) []ssa.CallInstruction {
 		}
 	}
 	return out
+}
+
+// methodValueParent: a named method that is never called directly and is only taken as a method value (x.m, handed out as
+// a callback) inside one function: it plays the part of a function literal of that function, like goParent's case.
+func (c *Ctx) methodValueParent(fn *ssa.Function) *ssa.Function {
+	c.P.onlyCalledFrom(fn, nil) // builds the index
+	var parent *ssa.Function
+	note := func(user *ssa.Function) bool {
+		for user.Parent() != nil {
+			user = user.Parent()
+		}
+		if parent != nil && parent != user {
+			return false
+		}
+		parent = user
+		return true
+	}
+	sites := c.P.staticSites[fn]
+	if len(sites) == 0 && !c.P.valueUse[fn] {
+		return nil
+	}
+	for u := range c.P.valueUsers[fn] {
+		if !note(u) {
+			return nil
+		}
+	}
+	for _, s := range sites {
+		w := s.Parent()
+		if !strings.Contains(w.Synthetic, "bound method wrapper") && !strings.Contains(w.Synthetic, "wrapper for") {
+			return nil // an ordinary direct call
+		}
+		if len(c.P.staticSites[w]) > 0 {
+			return nil
+		}
+		if n := c.P.cg.Nodes[w]; (n == nil || len(n.In) == 0) && !c.P.valueUse[w] {
+			continue // dead wrapper
+		}
+		if !strings.Contains(w.Synthetic, "bound method wrapper") {
+			return nil
+		}
+		for u := range c.P.valueUsers[w] {
+			if !note(u) {
+				return nil
+			}
+		}
+	}
+	return parent
+}
+
+// installReviewedParent wires the reviewed-table lookups (rulekit.go) to the region machinery
+func (P *Prog) installReviewedParent() {
+	byName := map[string][]*ssa.Function{}
+	for _, f := range P.universe {
+		byName[anchorName(f)] = append(byName[anchorName(f)], f)
+	}
+	memo := map[string]string{}
+	reviewedParentOf = func(name string) string {
+		if strings.HasPrefix(name, "gone:") {
+			// "gone:<old function>><current function>": the old function's package and receiver type are those of the
+			// current one (an inlined helper lived next to its caller)
+			parts := strings.SplitN(strings.TrimPrefix(name, "gone:"), ">", 2)
+			if len(parts) == 2 && samePkgAndRecv(parts[0], parts[1]) {
+				return "ok"
+			}
+			return ""
+		}
+		if v, ok := memo[name]; ok {
+			return v
+		}
+		out := ""
+		for _, f := range byName[name] {
+			if f.Parent() != nil {
+				continue
+			}
+			P.onlyCalledFrom(f, nil)
+			var parent *ssa.Function
+			okAll := len(P.staticSites[f]) > 0
+			for _, s := range P.staticSites[f] {
+				u := s.Parent()
+				if strings.Contains(u.Synthetic, "wrapper") {
+					continue
+				}
+				for u.Parent() != nil {
+					u = u.Parent()
+				}
+				if parent != nil && parent != u {
+					okAll = false
+				}
+				parent = u
+			}
+			if okAll && parent != nil && parent != f && P.helpersOf(parent)[f] {
+				out = anchorName(parent)
+			}
+		}
+		memo[name] = out
+		return out
+	}
+}
+
+// samePkgAndRecv: two anchor names "pkg.(*T).m" / "pkg.f" agree on package and receiver type
+func samePkgAndRecv(a, b string) bool {
+	cut := func(s string) string {
+		if i := strings.LastIndex(s, "."); i > 0 {
+			return s[:i]
+		}
+		return s
+	}
+	return cut(a) == cut(b)
 }
